@@ -4255,6 +4255,14 @@ class Fparser2Reader():
             for idx, child in enumerate(array.indices):
                 if not isinstance(child, Range):
                     continue
+                if not (isinstance(child.step, Literal) and
+                        child.step.value == "1"):
+                    # The index expression constructed below assumes a
+                    # unit stride.
+                    raise NotImplementedError(
+                        f"Array sections with a non-unit stride are not "
+                        f"supported within a WHERE construct but found "
+                        f"'{array.debug_string()}'")
                 # We need the lower bound of the appropriate dimension of this
                 # array as we will index relative to it. Note that the 'shape'
                 # of the datatype only gives us extents, not the lower bounds
